@@ -64,7 +64,7 @@ def leaf_equal(va, vb, name):
     return type(va) is type(vb) and va == vb
 
 
-HOSTILE_STR = ["", " ", "plain", 'with "double" quotes', "single 'quotes'", "back\\slash \\n \\t \\u1234", "tab\there", "new\nline", "control\x01\x1f\x7f", "unicode é ñ 日本語 🚀  ", "# not a comment", "[table]", "a = 1", "'''", '"""', "trailing space ", "\\", "key.with.dots", "0", "true", "1979-05-27T07:32:00Z"]
+HOSTILE_STR = ["", " ", "plain", 'with "double" quotes', "single 'quotes'", "back\\slash \\n \\t \\u1234", "tab\there", "new\nline", "control\x01\x1f\x7f", "unicode é ñ 日本語 🚀  ", "# not a comment", "[table]", "a = 1", "'''", '"""', "trailing space ", "\\", "key.with.dots", "0", "true", "1979-05-27T07:32:00Z", "windows\r\nline ends\r\n", "lone\rreturn", "\nleading newline", "two\n\nblank lines \\\n continued", "quote at end\""]
 FLOATS = [0.0, -0.0, 1.0, -1.0, 0.1, 0.30000000000000004, 1e-300, 1e300, 5e-324, 1.7976931348623157e308, 123456789.12345679, 1e-7, 2.0**-52, 1 / 3]
 
 
@@ -368,6 +368,6 @@ def run(ctx):
     for m in ("roundtrip", "units", "units-rejected", "units-bare", "band", "month", "month-rejected", "cli"):
         ctx.require(m)
     return ctx.finish(
-        rule="round trip: seeded configurations over every spectrum/cloud variant with floats from {0, -0, denormal, 1e+-300, max double, 0.1+0.2, random over 17 decades}, 21 hostile strings (quotes, backslashes, control characters, non-ASCII, TOML syntax look-alikes, empty) and boundary integers; units: 15 unit-bearing fields x 3-12 spellings x values x {string, Quantity}, incompatible units, bare numbers; 14 band specifications x 3 routes; 120 month spellings + 12 invalid; 13 CLI invocations; a case is a distinct configuration / (field, spelling, value, form) / specification",
+        rule="round trip: seeded configurations over every spectrum/cloud variant with floats from {0, -0, denormal, 1e+-300, max double, 0.1+0.2, random over 17 decades}, 26 hostile strings (quotes, backslashes, control characters, CR LF / lone CR / leading and double newlines, non-ASCII, TOML syntax look-alikes, empty) and boundary integers; units: 15 unit-bearing fields x 3-12 spellings x values x {string, Quantity}, incompatible units, bare numbers; 14 band specifications x 3 routes; 120 month spellings + 12 invalid; 13 CLI invocations; a case is a distinct configuration / (field, spelling, value, form) / specification",
         assumptions=["optional sub-models set to None are not generated (compute() dereferences them unconditionally)", "whether a spelling is compatible is decided by the harness route (Quantity(value, unit_object).to(canonical)); a string spelling astropy's own parser rejects is counted, not judged", "angle fields: relative 4 x 2^-52; angle magnitudes are kept in {0} u [1e-290, 1e290] rad (degree value neither overflowing nor denormal)"],
     )
